@@ -86,6 +86,34 @@ fn replay_cmp(doc: &Value, t: &mut Tally) {
             t.mismatch(json!({"k": "cmp", "base": base, "case": doc, "actual": got}));
         }
     }
+    // entry and code point far apart (>= 2^31): the model is order-only, so the expected results are those of the
+    // same relative order inside the window
+    let lo = if doc["x"]["k"] == "S" { doc["x"]["c"].as_u64().unwrap() } else { doc["x"]["s"].as_u64().unwrap() };
+    let hi = if doc["x"]["k"] == "S" { doc["x"]["c"].as_u64().unwrap() } else { doc["x"]["e"].as_u64().unwrap() };
+    let mcp = doc["cp"].as_u64().unwrap();
+    let far: Vec<(u64, u64)> = if mcp > hi {
+        vec![(0, 0xFFFF_FFF0), (0, 0x8000_0000), (0x7FFF_FFF0, 0xFFFF_FFF0), (0x10FFF0, 0x8011_0000)]
+    } else if mcp < lo {
+        vec![(0xFFFF_FFF0, 0), (0x8000_0000, 0), (0xFFFF_FFF0, 0x7FFF_FFF0), (0x8011_0000, 0x10FFF0)]
+    } else {
+        vec![]
+    };
+    for (xb, cb) in far {
+        let x = entry(&doc["x"], xb);
+        let cp = (mcp + cb) as u32;
+        let got = guarded(|| {
+            json!({
+                "eq": x == cp, "lt": x < cp, "le": x <= cp, "gt": x > cp, "ge": x >= cp,
+                "cmp": ord_name(x.partial_cmp(&cp)),
+                "meq": cp == x, "mlt": cp < x, "mle": cp <= x, "mgt": cp > x, "mge": cp >= x,
+                "mcmp": ord_name(cp.partial_cmp(&x)),
+            })
+        });
+        t.executions += 1;
+        if got != doc["ops"] {
+            t.mismatch(json!({"k": "cmp", "entry_base": xb, "cp_base": cb, "case": doc, "actual": got}));
+        }
+    }
     t.nontrivial += 1;
 }
 
@@ -111,9 +139,11 @@ fn replay_search(doc: &Value, t: &mut Tally) {
 // two assignments of real strings to the model's abstract states.  In the second one each
 // string is a strict suffix of the previous one, so that the closure can answer with a
 // BORROWED sub-slice of its argument although the string changed.
-const STATE_STRINGS: [[&str; 6]; 2] = [
+const STATE_STRINGS: [[&str; 6]; 3] = [
     ["a", "\u{e9}", "\u{65e5}\u{672c}", "\u{1f600}x", "\u{df}\u{3b1}", "zz"],
     ["  \u{e9}\u{65e5}\u{1f600}q", " \u{e9}\u{65e5}\u{1f600}q", "\u{e9}\u{65e5}\u{1f600}q", "\u{65e5}\u{1f600}q", "\u{1f600}q", "q"],
+    // the empty string is a string like any other (a rule function may map to it, be stable on it, or fail on it)
+    ["\u{3000} ", "", "\u{1f600}", "anonymous", " ", "\u{a0}"],
 ];
 
 fn stab_err(name: &str) -> Error {
